@@ -957,3 +957,51 @@ package channel
 //@   requires s != nil && t != nil && s.App != nil && t.App != nil && allocNonNil(&s.Allocation) && allocNonNil(&t.Allocation)
 //@   ensures result == nil <==> s == t || (s.ID == t.ID && s.Version == t.Version && appEq(s.App, t.App) && allocEq(&s.Allocation, &t.Allocation) &&
 //@           binEq(s.Data, t.Data) && s.IsFinal == t.IsFinal)
+
+// ---------------------------------------------------------------------------
+// Round trip (C14), token level. wcount(w)/rcount(r): tokens written to w / consumed from r; wtokKind/wtokVal(w, i): the i-th
+// token written; desync(r): a read did not use the kind that was written; rfail(r): a read failed. rec("A", k): the value of
+// wcount(w) at the head of iteration k of the encoder's outer loop (record clause), i.e. where row k starts.
+// ---------------------------------------------------------------------------
+//@ pred rectangular(x Balances) = forall i int :: 0 <= i && i < len(x) ==> len(x[i]) == len(x[0])
+//@ pred balHeader(w io.Writer, p int, x Balances) = wtokKind(w, p) == tokkind("uint16") && wtokVal(w, p) == len(x) &&
+//@   wtokKind(w, p + 1) == tokkind("uint16") && wtokVal(w, p + 1) == len(x[0])
+//@ pred balRow(w io.Writer, p int, row []Bal, n int) = forall m int :: p <= m && m < p + n ==> wtokKind(w, m) == tokkind("bigint") && wtokVal(w, m) == val(row[m - p]) && bytelen(wtokVal(w, m)) <= 128
+
+//@ func verifRoundTripBalances
+//@   tokenmodel
+//@   requires w0 != nil && r0 != nil && nonNilBalances(x) && rectangular(x) && len(x) > 0
+//@   requires forall i, j int :: 0 <= i && i < len(x) && 0 <= j && j < len(x[i]) ==> val(x[i][j]) >= 0
+//@   modifies *
+//@   inlines (Balances).Encode, (*Balances).Decode
+//@   ensures encErr == nil && !rfail(r0) ==> decErr == nil
+//@   ensures encErr == nil && decErr == nil ==> !desync(r0) && rcount(r0) - old(rcount(r0)) == wcount(w0) - old(wcount(w0))
+//@   ensures encErr == nil && decErr == nil ==> len(y) == len(x) && forall i, j int :: 0 <= i && i < len(x) && 0 <= j && j < len(x[i]) ==>
+//@     len(y[i]) == len(x[i]) && y[i][j] != nil && val(y[i][j]) == val(x[i][j])
+//@   loop (Balances).Encode.1
+//@     record A = wcount(w)
+//@     invariant rec("A", 0) == old(wcount(w)) + 2 && balHeader(w, old(wcount(w)), b)
+//@     invariant forall a int :: 0 <= a && a <= $i ==> rec("A", a) >= old(wcount(w)) + 2
+//@     invariant forall a int :: 0 <= a && a < $i ==> rec("A", a) + len(b[0]) <= wcount(w)
+//@     invariant forall a int :: 0 <= a && a < $i ==> rec("A", a + 1) == rec("A", a) + len(b[0])
+//@     invariant forall a int :: 0 <= a && a < $i ==> balRow(w, rec("A", a), b[a], len(b[0]))
+//@   loop (Balances).Encode.2
+//@     invariant 0 <= i && i < len(b) && wcount(w) == rec("A", i) + $i
+//@     invariant rec("A", 0) == old(wcount(w)) + 2 && balHeader(w, old(wcount(w)), b)
+//@     invariant forall a int :: 0 <= a && a <= i ==> rec("A", a) >= old(wcount(w)) + 2
+//@     invariant forall a int :: 0 <= a && a < i ==> rec("A", a) + len(b[0]) <= rec("A", i)
+//@     invariant forall a int :: 0 <= a && a < i ==> rec("A", a + 1) == rec("A", a) + len(b[0])
+//@     invariant forall a int :: 0 <= a && a < i ==> balRow(w, rec("A", a), b[a], len(b[0]))
+//@     invariant balRow(w, rec("A", i), b[i], $i)
+//@   loop (*Balances).Decode.1
+//@     modifies fresh, ghost("rcount"), ghost("desync"), ghost("rfail"), ghost("setbyteslen")
+//@     invariant !desync(r) && rcount(r) == old(rcount(r0)) + rec("A", $i) - old(wcount(w0))
+//@     invariant len(*b) == len(x) && numParts == len(x[0])
+//@     invariant forall a, c int :: 0 <= a && a < $i && 0 <= c && c < len(x[0]) ==> len((*b)[a]) == len(x[0]) && (*b)[a][c] != nil && val((*b)[a][c]) == val(x[a][c])
+//@   loop (*Balances).Decode.2
+//@     modifies fresh, ghost("rcount"), ghost("desync"), ghost("rfail"), ghost("setbyteslen")
+//@     invariant 0 <= i && i < len(*b) && !desync(r) && rcount(r) == old(rcount(r0)) + rec("A", i) - old(wcount(w0)) + $i
+//@     invariant len(*b) == len(x) && numParts == len(x[0]) && len((*b)[i]) == len(x[0])
+//@     invariant balRow(w0, rec("A", i), x[i], len(x[0])) && rec("A", i + 1) == rec("A", i) + len(x[0])
+//@     invariant forall a, c int :: 0 <= a && a < i && 0 <= c && c < len(x[0]) ==> len((*b)[a]) == len(x[0]) && (*b)[a][c] != nil && val((*b)[a][c]) == val(x[a][c])
+//@     invariant forall c int :: 0 <= c && c < $i ==> (*b)[i][c] != nil && val((*b)[i][c]) == val(x[i][c])
